@@ -808,8 +808,17 @@ func c02NameChecks(env *core.Env, tn string, in []fhir.Resource, names []string,
 	base := model.RenderPath(tn, namesToSteps(names))
 	bad := []string{"zzNotAField", "fooBar", "x9"}
 	// elements of other types
-	for _, cand := range []string{"birthDate", "valueQuantity", "given", "effective", "subject", "div", "coding", "family"} {
+	for _, cand := range []string{"birthDate", "valueQuantity", "given", "effective", "subject", "div", "coding", "family", "display", "type", "identifier", "system", "code", "unit", "text", "start", "end", "entry", "name", "status", "period", "meta", "versionId", "lastUpdated"} {
 		if !hasElement(md, cand) {
+			bad = append(bad, cand)
+		}
+	}
+	// names the navigation code treats specially for some type (reference of a Reference, value of a primitive,
+	// resource of an entry, contained, url of an extension): on any other type they are unknown names like the rest
+	alwaysBad := map[int]bool{}
+	for _, cand := range []string{"reference", "value", "resource", "contained", "url", "resourceType", "fhir_comments"} {
+		if !hasElement(md, cand) && !(cand == "value" && gen.IsPrimitive(md)) {
+			alwaysBad[len(bad)] = true
 			bad = append(bad, cand)
 		}
 	}
@@ -852,7 +861,7 @@ func c02NameChecks(env *core.Env, tn string, in []fhir.Resource, names []string,
 		pick[rng.Intn(len(bad))] = true
 	}
 	for i, b := range bad {
-		if !pick[i] && i > 1 && !must[i] {
+		if !pick[i] && i > 1 && !must[i] && !alwaysBad[i] {
 			continue
 		}
 		src := base + "." + b
